@@ -434,9 +434,11 @@ def twin_check(c, rng, n):
         def mets():
             return [Metric(name="rev", agg="sum", sql="v"), Metric(name="cnt", agg="count"), Metric(name="comp", type="derived", sql=tree_sql(tree, lambda x: x)),
                     Metric(name="rat", type="ratio", numerator="rev", denominator="cnt")]
-        L.add_model(Model(name="b", table="b", primary_key="id", dimensions=[Dimension(name="s0", type="categorical")], metrics=mets()))
+        # a.bid -> b.id ; a one_to_one relationship is declared on the side that does NOT hold the foreign key
+        L.add_model(Model(name="b", table="b", primary_key="id", dimensions=[Dimension(name="s0", type="categorical")], metrics=mets(),
+                          relationships=([Relationship(name="a", type="one_to_one", foreign_key="bid")] if rel == "one_to_one" else [])))
         L.add_model(Model(name="a", table="a", primary_key="id", dimensions=[Dimension(name="s0", type="categorical")], metrics=mets(),
-                          relationships=[Relationship(name="b", type=rel, foreign_key="bid")]))
+                          relationships=([Relationship(name="b", type="many_to_one", foreign_key="bid")] if rel == "many_to_one" else [])))
         target = rng.choice(["comp", "rat"])
         try:
             both = L.conn.execute(L.compile(metrics=["a." + target, "b." + target], dimensions=["a.s0"])).fetchall()
